@@ -2,13 +2,14 @@
 //! (every f32 in [1,2); pseudo-random f64 in [1,2)) before the symbolic harness is trusted.
 use lexverif::h_dragonbox::*;
 fn main() {
-    let mut bad = 0u64;
+    let mut bad = 0u64; let (mut bad_low, mut bad_high) = (0u64, 0u64);
     for m in 0u32..(1 << 23) {
         let bits = (127u32 << 23) | m;
-        if let Err(e) = shortest_f32_unit(bits) { bad += 1; if bad < 10 { println!("f32 {:?} bits {bits:#x}: {e}", f32::from_bits(bits)); } }
+        if let Err(e) = shortest_f32_unit(bits) { bad += 1; if m < 4096 { bad_low += 1; } if m & 0x7FF == 0 { bad_high += 1; } if bad < 10 { println!("f32 {:?} bits {bits:#x}: {e}", f32::from_bits(bits)); } }
         // cross-check against std: shortest repr of std must have the same length
         if m % 4099 == 0 { let v = f32::from_bits(bits); let mut b = [0u8; 64]; let s = lexical_write_float::ToLexical::to_lexical(v, &mut b); let t = format!("{v:?}"); if s != t.as_bytes() { bad += 1; println!("differs from std: {t}"); } }
     }
+    println!("f32 [1,2): bad = {bad} (in the low12 domain: {bad_low}, in the high12 domain: {bad_high})");
     let mut x = 0x9E3779B97F4A7C15u64;
     for i in 0..20_000_000u64 {
         x ^= x << 13; x ^= x >> 7; x ^= x << 17;
